@@ -59,6 +59,12 @@ func c04Scenarios(cfg runCfg) []Scenario {
 	if cfg.shard%8 == 5 {
 		hist = append(hist, Scenario{Family: "big-data", Seed: mix(cfg.seed, 4, 45, uint64(cfg.shard))})
 	}
+	// every rejection-heavy regexp, as a string and as a byte slice, is recorded, pruned and replayed on its own
+	for j := 0; j < 2*len(rejRegexps); j++ {
+		if cfg.mine(j) {
+			hist = append(hist, Scenario{Family: "record", Seed: mix(cfg.seed, 4, 46, uint64(j)), N: cfg.n(60, 5), X: map[string]string{"rejgen": fmt.Sprint(j)}})
+		}
+	}
 	return append(hist, mirrored(cfg, np, func(i int) []Scenario {
 		seed := mix(cfg.seed, 4, uint64(i))
 		switch mix(seed, 404) % 4 {
@@ -235,6 +241,13 @@ func c04Run(t *testing.T, sc Scenario, res *Result) {
 		steps := pick(r, []string{"30", "30", "30", "300", "2000"})
 		setFlags(map[string]string{"rapid.steps": steps})
 		p := genProg(sc.Seed, c04Opts(sc.Seed))
+		if k := sc.X["rejgen"]; k != "" {
+			var j int
+			fmt.Sscan(k, &j)
+			gx := gxRegexpOf(rejRegexps[j/2], j%2 == 0)
+			p = &Prog{Steps: []Step{{Op: "draw", GX: gx, Label: "v"}, {Op: "draw", GX: gx, Label: "w"}}, Desc: "draw " + gx.Desc + " twice"}
+			res.inc("rejection_heavy_regexp_programs")
+		}
 		if steps != "30" {
 			hasRepeat := false
 			for _, st := range p.Steps {
